@@ -589,12 +589,11 @@ theorem export_version_monotone :
 
 /-- (class, attribute) pairs that an earlier version does not export although the attribute's `dxfversion`
     admits it and a later version exports it:
-    * DIMENSION extrusion: missing from the DXF R12 name list of Dimension.export_entity (finding C01-F8);
     * MPOLYGON fill_color: explicit `dxfversion > DXF2000` test in MPolygon.export_entity;
     * 3DSOLID history_handle: the AcDb3dSolid subclass is written from DXF R2007 on (explicit test);
     * VIEWPORT (whole class): DXF R12 stores the view data in the MVIEW XDATA instead of group codes. -/
 def downExceptions : List (Name × Name) :=
-  [(enc "DIMENSION", enc "extrusion"), (enc "MPOLYGON", enc "fill_color"), (enc "3DSOLID", enc "history_handle")]
+  [(enc "MPOLYGON", enc "fill_color"), (enc "3DSOLID", enc "history_handle")]
 def downExceptionClasses : List Name := [enc "VIEWPORT"]
 
 /-- **export_version_downward**: no version between an attribute's `dxfversion` and a version that exports
